@@ -186,7 +186,11 @@ func C03(run *Run) {
 	defer func() { run.Coverage["cases_without_model_graph"] = nograph }()
 	for c := 0; c < nCases; c++ {
 		cs, _ := GenCase(r, c, GenOpts{})
-		if err := v.Base.Setup(ctx, cs.Model, cs.Tuples); err != nil {
+		stored, ctxt := cs.Tuples, []Tuple(nil)
+		if c%2 == 1 { // part of the tuples travel with the requests as contextual tuples
+			stored, ctxt = splitTuples(r, cs)
+		}
+		if err := v.Base.Setup(ctx, cs.Model, stored); err != nil {
 			run.Inconclusive("setup failed: %v", err)
 		}
 		ts, mg, err := v.Base.Typesystem(ctx, cs.Model)
@@ -200,13 +204,15 @@ func C03(run *Run) {
 			}
 			continue
 		}
-		rec.Setup(cs.SetupEv())
+		se := cs.SetupEv()
+		se.Tuples = normTuples(stored)
+		rec.Setup(se)
 		sv2 := v.Get("server:v2")
 		for _, q := range GenRequests(r, cs, perCase) {
-			v1 := &CheckEv{Eng: "v1:default", O: q.O, R: q.R, U: q.U, Ctx: q.Ctx}
+			v1 := &CheckEv{Eng: "v1:default", O: q.O, R: q.R, U: q.U, Ctx: q.Ctx, Ctxt: ctxt}
 			v.Base.RunCheck(ctx, v1, ts, mg)
 			for _, eng := range []string{"v2:default", "v2:weight2", "v2:recursive", "server:v2"} {
-				ev := &V2Ev{CheckEv: CheckEv{Eng: eng, O: q.O, R: q.R, U: q.U, Ctx: q.Ctx}}
+				ev := &V2Ev{CheckEv: CheckEv{Eng: eng, O: q.O, R: q.R, U: q.U, Ctx: q.Ctx, Ctxt: ctxt}}
 				if eng == "server:v2" {
 					sv2.RunCheck(ctx, &ev.CheckEv, ts, mg)
 				} else {
